@@ -401,6 +401,30 @@ def r03h(ctx):
     ctx.floor("R03h", k, 0, "node-keyed dicts in WeightedBipartiteMatcher")
 
 
+def r03i(ctx):
+    m = ctx.model
+    ctx.rule("R03i", "EditDistance prices only the trimmed sequences: the pairs removed as shared prefix / suffix are outside the "
+                     "cost matrix, so the edits listed for them must be literal zero-cost matches `Match(a, b, 0)` - any edit that "
+                     "can cost something there is listed but never counted")
+    q = m.need_class("EditDistance")
+    f = m.method(q, "edits")
+    n = 0
+    for g in walk_no_nested(f.node):
+        if isinstance(g, (ast.GeneratorExp, ast.ListComp)) and g.generators and self_attr(g.generators[0].iter) in ("shared_prefix", "reversed_shared_suffix"):
+            n += 1
+            e = g.elt
+            ok = isinstance(e, ast.Call) and call_name(e) == "Match" and len(e.args) == 3 and isinstance(e.args[2], ast.Constant) and e.args[2].value == 0
+            which = self_attr(g.generators[0].iter)
+            if ok:
+                ctx.proved("R03i", f.file, "EditDistance.edits", g, f"self.{which} listed at cost 0", f"`{norm(e, 40)}` for every pair of self.{which}")
+            else:
+                ctx.violation("R03i", f.file, "EditDistance.edits", g, f"self.{which} listed at cost 0",
+                              f"the pairs of self.{which} are listed as `{norm(e, 50)}`; their cost is not part of the matrix total "
+                              f"(costs[-1][-1] covers the trimmed sequences only), and equal leaves can still have a positive edit "
+                              f"cost (1 == 1.0 but str differs): [1, 2] -> [1.0, 3] reports 2 while its listed edits add up to 4")
+    ctx.floor("R03i", n, 2, "prefix / suffix listings in EditDistance.edits")
+
+
 def r03e(ctx):
     m = ctx.model
     ctx.rule("R03e", "the matcher's cost and the multiset's script come from the same matching: WeightedBipartiteMatcher.bounds "
@@ -478,6 +502,7 @@ def run(ctx):
     r03d(ctx)
     r03g(ctx)
     r03h(ctx)
+    r03i(ctx)
     from .c04 import r04d
     r04d(ctx)
     ctx.assume("arithmetic inside the third-party assignment solver and numpy accumulation is not analysed")
